@@ -268,6 +268,17 @@ def fix_ops(ops):
     return out
 
 
+def finding_of(payload):
+    """known finding duplicate-wrap: ~Version holds two or more WRAP items and wrap= is given"""
+    import re
+    text = payload.get("text", "")
+    m = re.search(r"~V[^\n]*\n(.*?)(?=\n\s*~|\Z)", text, re.S | re.I)
+    body = m.group(1) if m else ""
+    nwrap = sum(1 for ln in body.split("\n") if re.match(r"\s*WRAP\s*\.", ln, re.I))
+    gives_wrap = any(o[0] == "W" and o[1].get("wrap") is not None for o in payload.get("ops", []))
+    return "duplicate-wrap" if nwrap >= 2 and gives_wrap else None
+
+
 def replay(payload):
     bad = oracle(payload["text"], fix_ops(payload["ops"]))
     return bad is not None, bad or "ok"
